@@ -27,6 +27,8 @@ enum Act {
 	/// scan that also deletes unconfirmed outputs and cancels their transactions (scan --delete_unconfirmed):
 	/// a reverted payment is not an unconfirmed one and must survive it
 	ScanDelete,
+	/// scan from a start height above 1 (still below the fork point): the revert must be found all the same
+	ScanFrom2,
 	/// an ordinary refresh first, then a scan while the node is still at the same height
 	RefreshThenScan,
 	RefreshThenFullRefresh,
@@ -78,6 +80,7 @@ fn act(w: &World, a: Act) -> Result<(), String> {
 		Act::FullRefresh => catch(|| owner::update_wallet_state(b.inst.clone(), None, &None, true).map(|_| ())),
 		Act::Scan => catch(|| b.scan(Some(1), false)),
 		Act::ScanDelete => catch(|| b.scan(Some(1), true)),
+		Act::ScanFrom2 => catch(|| b.scan(Some(2), false)),
 		Act::RefreshThenScan => catch(|| b.refresh().and_then(|_| b.scan(Some(1), false))),
 		Act::RefreshThenFullRefresh => catch(|| b.refresh().and_then(|_| owner::update_wallet_state(b.inst.clone(), None, &None, true).map(|_| ()))),
 	};
@@ -233,7 +236,7 @@ fn run_case(dir: &str, base: &Snapshot, c: &Case) -> (Vec<(String, String)>, u64
 			problems.push((format!("action-fails/{:?}", a), format!("{:?} after head flip {} failed: {}", a, i, e)));
 			continue;
 		}
-		if matches!(a, Act::Scan | Act::ScanDelete | Act::FullRefresh | Act::RefreshThenScan | Act::RefreshThenFullRefresh) {
+		if matches!(a, Act::Scan | Act::ScanDelete | Act::ScanFrom2 | Act::FullRefresh | Act::RefreshThenScan | Act::RefreshThenFullRefresh) {
 			oracles += 1;
 			let mut p = vec![];
 			oracle(&w, &cx, *a, &mut p);
@@ -245,7 +248,7 @@ fn run_case(dir: &str, base: &Snapshot, c: &Case) -> (Vec<(String, String)>, u64
 	// final: if the payment is not on the current chain, get it re-mined; an ORDINARY refresh must then
 	// report it confirmed and spendable again (provided the wallet had learnt that it was reverted)
 	let kernel = cx.tx.kernels()[0].excess;
-	let last_was_full = matches!(c.acts.last(), Some(Act::Scan) | Some(Act::ScanDelete) | Some(Act::FullRefresh) | Some(Act::RefreshThenScan) | Some(Act::RefreshThenFullRefresh));
+	let last_was_full = matches!(c.acts.last(), Some(Act::Scan) | Some(Act::ScanDelete) | Some(Act::ScanFrom2) | Some(Act::FullRefresh) | Some(Act::RefreshThenScan) | Some(Act::RefreshThenFullRefresh));
 	if w.node.kernel_on_chain(&kernel).is_none() && last_was_full {
 		if w.w("A").post(&cx.tx).is_ok() {
 			w.mine("M").unwrap();
@@ -297,8 +300,13 @@ fn cases(thorough: bool) -> Vec<Case> {
 			}
 		}
 	}
+	seqs.push(vec![Act::ScanFrom2]);
+	for a in acts.iter() {
+		seqs.push(vec![*a, Act::ScanFrom2]);
+		seqs.push(vec![Act::ScanFrom2, *a]);
+	}
 	// only sequences that end in (or contain) an oracle point are informative
-	seqs.retain(|s| s.iter().any(|a| matches!(a, Act::Scan | Act::ScanDelete | Act::FullRefresh | Act::RefreshThenScan | Act::RefreshThenFullRefresh)));
+	seqs.retain(|s| s.iter().any(|a| matches!(a, Act::Scan | Act::ScanDelete | Act::ScanFrom2 | Act::FullRefresh | Act::RefreshThenScan | Act::RefreshThenFullRefresh)));
 	for depth in (if thorough { vec![1u64, 2, 3] } else { vec![1u64, 2] }).iter() {
 		for after in [1u64, 0].iter() {
 			for fork_has_tx in [false, true].iter() {
@@ -373,7 +381,7 @@ pub fn run(_args: &[String]) -> i32 {
 	rep.cov("distinct_nontrivial", json!(oracles));
 	rep.cov("rule", json!("one case = (fork depth below the receiving block, blocks after it, fork with/without the tx, extra fork length, sequence of wallet actions after each of up to three head flips); non-trivial count = oracle evaluations after a scan / full refresh / re-mining refresh"));
 	rep.cov("exhaustive", json!(true));
-	rep.cov("dimensions", json!({"fork_depths": if thorough { vec![1,2,3] } else { vec![1,2] }, "blocks_after": [1,0], "fork_has_tx": [false,true], "extra_fork_blocks": if thorough { vec![0,1] } else { vec![0] }, "actions": ["Scan","FullRefresh","Refresh","Nothing","RefreshThenScan","RefreshThenFullRefresh","ScanDelete"], "max_head_flips": 3, "cases": n}));
+	rep.cov("dimensions", json!({"fork_depths": if thorough { vec![1,2,3] } else { vec![1,2] }, "blocks_after": [1,0], "fork_has_tx": [false,true], "extra_fork_blocks": if thorough { vec![0,1] } else { vec![0] }, "actions": ["Scan","FullRefresh","Refresh","Nothing","RefreshThenScan","RefreshThenFullRefresh","ScanDelete","ScanFrom2"], "max_head_flips": 3, "cases": n}));
 	rep.cov("outcomes", json!(hist));
 	rep.cov("samples", json!([cs[0], cs[5], cs[cs.len() - 1]]));
 	rep.assume("'full refresh' = update_wallet_state with update_all = true (what scan runs first); reorgs are built on a real grin_chain with side branches of real blocks");
